@@ -125,20 +125,23 @@ impl Cfg {
         // Check if any call or jump names are not defined
         // (each undefined label is represented by its first use in program order, so that
         // the reported location does not depend on hashing)
-        let mut undefined_labels = HashSet::<LabelStringToken>::new();
+        let mut undefined_labels = Vec::<LabelStringToken>::new();
         for node in &old_nodes {
             for used in [node.calls_to(), node.jumps_to(), node.reads_address_of()]
                 .into_iter()
                 .flatten()
             {
-                if !label_names.contains(&used) {
-                    undefined_labels.insert(used);
+                if !label_names.contains(&used) && !undefined_labels.contains(&used) {
+                    undefined_labels.push(used);
                 }
             }
         }
-        for used in predefined_call_names.iter().flatten() {
-            if !label_names.contains(used) {
-                undefined_labels.insert(used.clone());
+        // (handlers come out of a hash set: by name, behind the labels the program itself uses)
+        let mut handlers = predefined_call_names.iter().flatten().collect::<Vec<_>>();
+        handlers.sort();
+        for used in handlers {
+            if !label_names.contains(used) && !undefined_labels.contains(used) {
+                undefined_labels.push(used.clone());
             }
         }
 
